@@ -44,7 +44,11 @@ Filter(s, Test(_)) == LET keep == SetToSortedSeq({ i \in 1..Len(s) : Test(s[i]) 
 
 (* the labels a column schema targets in a frame (regex: every matching     *)
 (* label, in frame order, each once -- re.match semantics, i.e. prefix)      *)
-Matches(cs, lab) == IF cs.regex THEN IsStr(lab) /\ ReMatch(Re(cs.key), Str(lab)) ELSE lab = cs.key
+(* regex columns are matched against columns.astype(str): an integer label is matched as its decimal string *)
+LabStr(lab) == IF IsStr(lab) THEN Str(lab)
+               ELSE IF Tag(lab) = "i" /\ lab[2] \in 0..2 THEN << CASE lab[2] = 0 -> "0" [] lab[2] = 1 -> "1" [] lab[2] = 2 -> "2" >>
+               ELSE <<"?">>
+Matches(cs, lab) == IF cs.regex THEN (IsStr(lab) \/ Tag(lab) = "i") /\ ReMatch(Re(cs.key), LabStr(lab)) ELSE lab = cs.key
 Targets(cs, D) == Dedupe(Filter(Labels(D), LAMBDA lab : Matches(cs, lab)))
 
 (* collect_column_info *)
